@@ -163,19 +163,28 @@ func (c c06) Generate(e *Env) ([]*Case, error) {
 	for i := 0; i < n; i++ {
 		var ops []c06Op
 		l := 3 + rng.Intn(4)
-		applied := 0
+		var applied []int // indexes into c06Edits currently applied (an edit is applied at most once)
 		builds := 0
 		for len(ops) < l || builds < 2 {
 			switch r := rng.Intn(10); {
 			case r < 6:
 				ops = append(ops, b(pool[rng.Intn(len(pool))]+mods[rng.Intn(len(mods))]))
 				builds++
-			case r < 8 && applied < 3:
-				ops = append(ops, ed(rng.Intn(len(c06Edits))))
-				applied++
-			case r < 9 && applied > 0:
+			case r < 8 && len(applied) < 3:
+				k := rng.Intn(len(c06Edits))
+				dup := false
+				for _, a := range applied {
+					if a == k {
+						dup = true
+					}
+				}
+				if !dup {
+					ops = append(ops, ed(k))
+					applied = append(applied, k)
+				}
+			case r < 9 && len(applied) > 0:
 				ops = append(ops, c06Op{Undo: true})
-				applied--
+				applied = applied[:len(applied)-1]
 			case builds > 0:
 				ops = append(ops, again)
 			}
@@ -287,15 +296,23 @@ func (c c06) Run(e *Env, cs *Case) (*Outcome, error) {
 		if len(edits) > 0 {
 			key += fmt.Sprintf("+edits:%d", len(edits))
 		}
-		if cl.ExitCode != 0 {
-			return viol("build-failed", key, fmt.Sprintf("build %s exited %d: %s", cfgName, cl.ExitCode, shortErr(cl.Stderr.String())))
-		}
 		ref, err := e.Reference(RefSpec{Prog: p.Prog, Edits: edits, Cfg: cfg, TmplCfgs: tcfgs})
 		if err != nil {
 			return nil, err
 		}
 		if !ref.BuildOK {
-			return nil, fmt.Errorf("c06: reference build for %s failed: %s", cfgName, shortErr(ref.Stderr))
+			// The configuration does not build from cold caches either (e.g. control
+			// flow obfuscation rejecting a function): not a staleness matter. The
+			// property compares with the cold build, which here is a failure too.
+			o.Probes["config-does-not-build-cold:"+cfgName]++
+			if cl.ExitCode == 0 {
+				return viol("built-although-cold-build-fails", key, fmt.Sprintf("build(%s) succeeded over the shared caches but fails from cold caches: %s", cfgName, shortErr(ref.Stderr)))
+			}
+			last = prev
+			continue
+		}
+		if cl.ExitCode != 0 {
+			return viol("build-failed", key, fmt.Sprintf("build %s exited %d although a cold build succeeds: %s", cfgName, cl.ExitCode, shortErr(cl.Stderr.String())))
 		}
 		if got := world.HashFile(out); got != ref.Sha {
 			so, _ := RunBinary(out)
